@@ -11,6 +11,7 @@ plain arrays / a plain Python list replaying the same history).
 from __future__ import annotations
 
 import itertools
+import os
 
 import numpy as np
 
@@ -47,6 +48,39 @@ PARTIAL = [
 EXHAUSTIVE = {"quick": False, "thorough": True}
 
 _GUARD_CACHE = {}
+TRUSTED_EXTRA = [
+    "harness/c11_translate.py: syntax-only, statement-by-statement translation of the argvals / values / argvals_stand setters and "
+    "of compatible_with into lean/FDAModel/Generated/Setters.lean (vocabulary and meaning of the statements on the container "
+    "model: lean/FDAModel/Core/PySetter.lean)",
+]
+GEN_SETTERS = os.path.join(common.LEAN_DIR, "FDAModel", "Generated", "Setters.lean")
+TRANSLATOR = {"note": None}
+
+
+def translate():
+    """Regenerate Generated/Setters.lean from the setter bodies as they are now.  An unrecognised shape is NOT an alarm: the
+    reference translation kept beside the translator is used and the evidence says that the tie rests on the correspondence."""
+    import c11_translate
+
+    try:
+        src = c11_translate.lean_source(common.REPO)
+        TRANSLATOR["note"] = ("translator: setter bodies (argvals, values, argvals_stand, compatible_with) regenerated from the source and "
+                              "re-proved equal to the model's setters (C11.setter_src_eq_model_dense / _irreg / _stand)")
+    except (ValueError, SyntaxError, IndexError, AttributeError, KeyError, TypeError) as e:
+        TRANSLATOR["note"] = f"translator: shape of the setters not recognised, tie rests on the correspondence only ({e})"
+        print("note:", TRANSLATOR["note"])
+        src = open(os.path.join(os.path.dirname(os.path.abspath(__file__)), "c11_setters_reference.lean")).read()
+    except OSError as e:
+        raise common.InfraError(f"translator: cannot read the sources: {e}")
+    if not os.path.exists(GEN_SETTERS) or open(GEN_SETTERS).read() != src:
+        with open(GEN_SETTERS, "w") as fh:
+            fh.write(src)
+
+
+def extra_coverage(cases, impls, models):
+    return dict(translator=TRANSLATOR["note"])
+
+
 FINDING_STAND = "C11-argvals-stand-unguarded"
 FINDING_IOR = "C11-typed-dict-ior"
 
